@@ -331,6 +331,8 @@ def check(prop, tier, seed):
         ("seq-ticks", ["-mode", "seq-ticks=%d" % ticks, "-out", run.path("ticks.ndjson"), "-seed", seed, "-n", tn, "-len", tl], False),
         ("conc", ["-mode", "conc", "-out", run.path("conc.ndjson"), "-seed", seed, "-n", crounds, "-len", clen, "-workers", 32], False),
         ("conc-race", ["-mode", "conc", "-out", run.path("race.ndjson"), "-seed", seed, "-n", rrounds, "-len", rlen, "-workers", 32], True),
+        # expired keys are missing keys too: owners re-write keys that have just expired while sweepers read them in wide gets
+        ("conc-expire", ["-mode", "conc", "-out", run.path("expire.ndjson"), "-sizes", "expire", "-seed", seed, "-n", 2 if quick else 8, "-len", 300, "-workers", 8], False),
     ]
 
     def job(j):
